@@ -88,6 +88,8 @@ def build(spec):
             return datetime.date.fromisoformat(spec["v"])
         if t == "set":
             return set(spec["v"])
+        if t == "many":
+            return {"k%04d" % i: {"n": i, "s": "v%d" % (i % 7)} for i in range(int(spec["n"]))}
         if t == "pad":
             c = spec.get("c", "x") or "x"
             return (c * (int(spec["n"]) // len(c) + 1))[:int(spec["n"])]
@@ -166,3 +168,32 @@ def read_file(path):
 def short(o, n=300):
     s = repr(o)
     return s if len(s) <= n else s[:n] + "...(%d chars)" % len(s)
+
+
+def crash_payload(shape, salt, v):
+    """Deterministic payload of version v for the crash-point enumeration (same function in parent and child)."""
+    import random
+    rng = random.Random("%s:%s:%s" % (shape, salt, v))
+    body = {"_v": v, "_m": 0}
+    if shape == "tiny":
+        body["a"] = v
+    elif shape == "unicode":
+        for i in range(12):
+            body["k%d" % i] = rng.choice(STRINGS)
+        body["ü-key"] = "中文 \U0001f389 %d" % v
+    elif shape == "nested":
+        body["audits"] = {"switches": {"s_%d" % i: rng.randrange(1000) for i in range(40)},
+                          "player": {"score": {"top": [rng.randrange(10 ** 9) for _ in range(10)], "average": 1.5 * v,
+                                               "total": v}},
+                          "list": [[1, [2, [3, [v, None, True, {"deep": [float("inf"), -0.0]}]]]]]}
+    elif shape == "multiline":
+        body["text"] = "\n".join("line %d of version %d: %s" % (i, v, rng.choice(STRINGS)) for i in range(60 + v))
+        body["trail"] = "ends with newline\n"
+    elif shape == "two_buffers":
+        body["pad"] = ("v%d-" % v) * (3000 + 100 * v)
+    elif shape == "many_buffers":
+        body["pad"] = ("v%d é " % v) * (14000 + 1000 * v)
+        body["high_scores"] = {"score": [["AAA", rng.randrange(10 ** 9)] for _ in range(300)]}
+    else:
+        raise ValueError(shape)
+    return body
